@@ -1567,6 +1567,12 @@ func GenerateStringInJSTable(outerContents string, outerStringLiteralLoc Loc, in
 		}
 	}
 
+	// The table must never be empty because looking up a location in it (e.g.
+	// for the "Unexpected end of file" error in an empty string) indexes into it
+	if len(table) == 0 {
+		table = append(table, StringInJSTableEntry{innerLine: line, innerColumn: column, innerLoc: Loc{Start: i}, outerLoc: loc})
+	}
+
 	return
 }
 
